@@ -14,6 +14,7 @@ import LW.Generated.LeapTable
 import LW.Generated.EirpTable
 import LW.Driver.AppOps
 import LW.Driver.BackendOps
+import LW.Driver.JSOps
 namespace LW.Driver
 open LW LW.Canon
 
@@ -174,6 +175,7 @@ def runOp (st : DState) (op : String) (args : List String) : DState × String :=
       | .err => "ERR" | .panic => "PANIC")
   | _ => if AppOps.isAppOp op then (st, AppOps.appQuery E op args)
          else if BackendOps.isBackendOp op then (st, BackendOps.backendQuery E op args)
+         else if JSOps.isJSOp op then (st, JSOps.jsQuery E op args)
          else (st, badop ("unknown " ++ op))
 
 end LW.Driver
